@@ -60,10 +60,15 @@ class Prog:
 def compile_ast(ast: Dict[str, Any]) -> List[Dict[str, Any]]:
     p = Prog()
     nq = ast["nq"]
-    perq = ast.get("regstyle") == "perqubit"     # one Q register per qubit instead of the SDK's Q0 / Q1
+    perq = ast.get("regstyle") in ("perqubit", "hoisted")     # one Q register per qubit instead of the SDK's Q0 / Q1
+    hoisted = ast.get("regstyle") == "hoisted"                # ... written once at the start, never again
 
     def qr(q, pos):
         return Q(q) if perq else Q(pos)
+
+    def setq(reg, q):
+        if not hoisted:
+            p.emit("set", reg, q)
     # arrays: @0 results, @1 the qubit ids (for qubit registers written by load)
     p.emit("set", R(5), 6)
     p.emit("array", R(5), 0)
@@ -77,6 +82,9 @@ def compile_ast(ast: Dict[str, Any]) -> List[Dict[str, Any]]:
         p.emit("set", Q(0), i)
         p.emit("qalloc", Q(0))
         p.emit("init", Q(0))
+    if hoisted:
+        for i in range(4):
+            p.emit("set", Q(i), i)
 
     def gate(mn, regs, imm):
         if mn in ROT:
@@ -87,12 +95,22 @@ def compile_ast(ast: Dict[str, Any]) -> List[Dict[str, Any]]:
     def body(stmts, depth):
         for s in stmts:
             k = s["s"]
+            if hoisted and k in ("lg1", "lg2", "stale", "meas", "recycle", "mov"):
+                one(s, depth)
+                p.emit("set", Q(0), 0)      # these statements address their qubit through Q0 / Q1: restore the hoisted values
+                p.emit("set", Q(1), 1)
+                continue
+            one(s, depth)
+
+    def one(s, depth):
+        if True:
+            k = s["s"]
             if k == "g1":
-                p.emit("set", qr(s["q"], 0), s["q"])
+                setq(qr(s["q"], 0), s["q"])
                 gate(s["g"], [qr(s["q"], 0)], s.get("imm"))
             elif k == "g2":
-                p.emit("set", qr(s["a"], 0), s["a"])
-                p.emit("set", qr(s["b"], 1), s["b"])
+                setq(qr(s["a"], 0), s["a"])
+                setq(qr(s["b"], 1), s["b"])
                 gate(s["g"], [qr(s["a"], 0), qr(s["b"], 1)], None)
             elif k == "lg1":                       # qubit register written by load
                 p.emit("set", R(4), s["q"])
@@ -261,7 +279,7 @@ def gen_ast(rng: random.Random, flavour: str) -> Dict[str, Any]:
         if rng.random() < 0.4:
             last = {"s": "loop", "n": rng.choice([1, 2]), "body": [g1()] if alive else [{"s": "add", "slot": 0, "v": 1}]}
         body.append(last)
-    return {"nq": nq, "alloc": alloc, "body": body, "ret": not ends_in_label, "regstyle": rng.choice(["sdk", "sdk", "perqubit"])}
+    return {"nq": nq, "alloc": alloc, "body": body, "ret": not ends_in_label, "regstyle": rng.choice(["sdk", "sdk", "perqubit", "hoisted"])}
 
 
 def directed() -> List[Dict[str, Any]]:
@@ -276,6 +294,9 @@ def directed() -> List[Dict[str, Any]]:
     D.append({**c_c, "body": [{"s": "g1", "g": "h", "q": 0}, {"s": "g2", "g": "cnot", "a": 1, "b": 2}, {"s": "g2", "g": "cphase", "a": 2, "b": 1}, {"s": "g1", "g": "h", "q": 0}], "ret": True})
     # the first carbon-carbon gate in the text is skipped at run time, a later one is not; registers per qubit
     four = {"nq": 4, "alloc": [0, 1, 2, 3]}
+    # gates directly after one another (no register write in between)
+    D.append({**e_c, "regstyle": "hoisted", "body": [{"s": "g2", "g": "cnot", "a": 1, "b": 0}, {"s": "g1", "g": "rot_x", "q": 0, "imm": [8, 4]}, {"s": "g1", "g": "z", "q": 0}, {"s": "g2", "g": "cnot", "a": 0, "b": 1}, {"s": "g1", "g": "s", "q": 1}], "ret": True})
+    D.append({**c_c, "regstyle": "hoisted", "body": [{"s": "g1", "g": "h", "q": 1}, {"s": "g1", "g": "h", "q": 1}, {"s": "g2", "g": "cphase", "a": 1, "b": 2}, {"s": "g1", "g": "t", "q": 2}, {"s": "g1", "g": "rot_z", "q": 2, "imm": [3, 2]}], "ret": True})
     for style in ("sdk", "perqubit"):
         D.append({**c_c, "regstyle": style, "body": [{"s": "if", "on": "arr", "slot": 0, "cmp": "eq", "v": 1, "body": [{"s": "g2", "g": "cnot", "a": 1, "b": 2}]}, {"s": "g2", "g": "cphase", "a": 2, "b": 1}], "ret": True})
         D.append({**four, "regstyle": style, "body": [{"s": "g2", "g": "cnot", "a": 1, "b": 2}, {"s": "g1", "g": "h", "q": 3}, {"s": "g2", "g": "cnot", "a": 2, "b": 3}, {"s": "g2", "g": "cphase", "a": 3, "b": 1}], "ret": True})
